@@ -72,5 +72,5 @@ NOT_DECIDED = {
     "C11": ["containers other than AU; block codecs with a partly filled block"],
     "C10": ["open-for-write acceptance of CAF, PVF, PAF, IRCAM, NIST, MAT5, RF64, SDS, XI (header writers with large zero padding, text formatting or private state: no unit yet)",
             "the converse direction (what sf_format_check rejects fails to open) and the enumeration commands",
-            "sample rates above 2^20 (informational products such as bytes-per-second overflow int in some writers)"],
+            "sample rates above 2^19 (informational products such as bytes-per-second overflow int in some writers)"],
 }
